@@ -8,6 +8,7 @@ import (
 	"go/format"
 	"go/parser"
 	"go/token"
+	"os"
 	"runtime/debug"
 	"strings"
 
@@ -174,4 +175,15 @@ func short(s string, n int) string {
 		return s
 	}
 	return s[:n] + "…"
+}
+
+// scratchDir creates a temporary directory, on tmpfs when the machine has one (C20 and the ParseDir
+// entry point of C01 do real file system work per case).
+func scratchDir(prefix string) (string, error) {
+	if st, err := os.Stat("/dev/shm"); err == nil && st.IsDir() {
+		if d, err := os.MkdirTemp("/dev/shm", prefix); err == nil {
+			return d, nil
+		}
+	}
+	return os.MkdirTemp("", prefix)
 }
